@@ -297,6 +297,15 @@ def families():
         Fr['assign'] = [['A', 1, 1, {'flowrate': 0.5}], ['A', 2, 1, dict(bc), 6]]
         Fr['power'] = {'asm': {str(i + 1): dict(_PW2) for i in range(7)}}
         F[nm] = Fr
+    # cores with empty positions (the position list is longer than the list of assemblies): every
+    # assembly's boundary condition must still be converted, wherever the holes are
+    for nm, bc, holes in (('holes_flow', {'flowrate': 0.45}, (3,)), ('holes_outlet', {'outlet_temp': 793.15}, (0, 4)),
+                          ('holes_delta', {'delta_temp': 135.0}, (1, 2, 5))):
+        Fh = S.single(P, 0.5, power=_PW2)
+        pos = S.core_positions(2)
+        Fh['assign'] = [['A', rg, pp, dict(bc)] for i, (rg, pp) in enumerate(pos) if i not in holes]
+        Fh['power'] = {'asm': {str(i + 1): dict(_PW2) for i in range(7) if i not in holes}}
+        F[nm] = Fh
     F['orificing'] = S.single(P, 0.5, power=_PW2)
     F['orificing']['orificing'] = dict(F['full_a']['orificing'])
     F['multiduct'] = S.single(S.design(2, ducts=2, oftf=0.07), 0.5, power=_PW2D)
@@ -329,7 +338,8 @@ def families():
 DATA_FAMILIES = ('full_a', 'full_b', 'core_min', 'setup', 'regions', 'regions_noeps', 'spacer', 'spacer_sol', 'fuelmodel',
                  'fuelmodel_fc', 'pinmodel', 'pinmodel_fc', 'bc_outlet', 'bc_delta', 'orificing', 'multiduct', 'cold_nak',
                  'range_flow', 'range_outlet', 'range_delta',
-                 'setup_mesh', 'setup_plane', 'setup_dump', 'setup_cutoff', 'setup_tables')
+                 'setup_mesh', 'setup_plane', 'setup_dump', 'setup_cutoff', 'setup_tables',
+                 'holes_flow', 'holes_outlet', 'holes_delta')
 SWEEP_FAMILIES = ('sw_single', 'sw_core7')
 QUICK_SWEEPS = (('cm', 'celsius', 'kg/s'), ('mm', 'fahrenheit', 'lb/min'), ('in', 'kelvin', 'lb/hr'),
                 ('ft', 'celsius', 'kg/s'), ('m', 'fahrenheit', 'kg/s'))
